@@ -260,7 +260,10 @@ fn run(tier: Tier) -> Sink {
             }
         }
     }
-    for (na, nb, r) in [(2, 1000, 1.0), (50_000, 50_001, 1.0), (49_990, 50_020, 1.5), (60_000, 60_000, 1.0), (30_000, 70_000, 0.5), (3, 100_000, 0.25), (500, 700, 3.0), (5_000, 5_001, 1.0)] {
+    for (na, nb, r) in [(2, 1000, 1.0), (50_000, 50_001, 1.0), (49_990, 50_020, 1.5), (60_000, 60_000, 1.0), (30_000, 70_000, 0.5), (3, 100_000, 0.25), (500, 700, 3.0), (5_000, 5_001, 1.0),
+        // one sample beyond the population limit, the other small and carrying the variance: the
+        // effective dof stays small although more than 100 000 observations are involved
+        (5, 100_001, 0.25), (4, 250_000, 1.0), (100_500, 3, 10.0), (100_001, 100_001, 1.0), (100_001, 40, 30.0)] {
         jobs.push(Job::Unp(na, nb, 1.0, r));
     }
     for n in 4..=tier.pick(120, 400) {
@@ -309,7 +312,7 @@ fn main() {
     s.sample(json!({"check":"stream","n":100001,"dof":100000,"kind":"Two","level":0.95,"oracle":"normal CDF (t accepted within 1% of the switch)"}));
     s.sample(json!({"check":"unpaired","na":3,"nb":7,"sa":1.0,"sb":0.25,"oracle":"exact effective dof (real-valued) from rational variances; t CDF at that dof"}));
     s.sample(json!({"check":"proportion","n":30,"k":7,"kind":"Upper","level":0.9,"oracle":"z = sqrt(n)(k/n-p)/sqrt(p(1-p)) at the returned root; Phi(z) = 0.9"}));
-    rep.rule = format!("integer dof: +1,-1,... stream queried at {} sample sizes ({}) x {} confidences; real dof: unpaired two-point constructions (na,nb) in 2..12 squared x 7 sd ratios + 8 large/unbalanced constructions; proportion: every admissible (n,k), n<={}; dense sweep: quick dof 15000..100999 x 600 one-sided levels 0.70..0.9995, thorough every dof 1..100999 x 999 levels 0.5005..0.9995 (dense sweep for isolated failures of the upstream quantile routine); distinct by (kind, level, 1-2-5 dof bucket)", query_points(tier).len(), tier.pick("every n<=3000, every n in 99000..101000, 2% geometric steps between, 131072, 200001, 1000001", "every n in 2..101000, 131072, 200001, 1000001"), vcheck::confs(tier).len(), tier.pick(120, 400));
+    rep.rule = format!("integer dof: +1,-1,... stream queried at {} sample sizes ({}) x {} confidences; real dof: unpaired two-point constructions (na,nb) in 2..12 squared x 7 sd ratios + 13 large/unbalanced constructions (5 with a sample beyond the population limit); proportion: every admissible (n,k), n<={}; dense sweep: quick dof 15000..100999 x 600 one-sided levels 0.70..0.9995, thorough every dof 1..100999 x 999 levels 0.5005..0.9995 (dense sweep for isolated failures of the upstream quantile routine); distinct by (kind, level, 1-2-5 dof bucket)", query_points(tier).len(), tier.pick("every n<=3000, every n in 99000..101000, 2% geometric steps between, 131072, 200001, 1000001", "every n in 2..101000, 131072, 200001, 1000001"), vcheck::confs(tier).len(), tier.pick(120, 400));
     rep.assume("the tolerance floor per dof tier is bounded below by the accuracy of the upstream (statrs) quantile routine; observed maxima per 1-2-5 dof bucket are in coverage.maxima");
     rep.require(s.counter("real-valued-dof-cases") > 100, "fewer than 100 real-valued dof cases");
     rep.require(s.distinct() >= 100, "fewer than 100 distinct classes: vacuous");
